@@ -1,0 +1,9 @@
+//go:build verif
+
+package writer
+
+// GetObjStateForVerif exposes the pure decision function getObjState
+// (1 = unknown, 2 = created, 3 = dropped) for exhaustive checking.
+func GetObjStateForVerif(mtime, ctime, dtime uint64, cok, dok bool) int {
+	return int(getObjState(mtime, ctime, dtime, cok, dok))
+}
